@@ -1732,6 +1732,12 @@ class Cat(Funsor, metaclass=CatMeta):
         assert len(subs) == 1 and subs[0][0] == self.name
         value = subs[0][1]
 
+        if isinstance(value, (Variable, Slice)):
+            if value.name != self.name and value.name in self.inputs:
+                raise NotImplementedError(
+                    "TODO support renaming Cat onto one of its other inputs"
+                )
+
         if isinstance(value, Variable):
             return Cat(value.name, self.parts, self.part_name)
         elif isinstance(value, Number):
